@@ -80,7 +80,7 @@ R = {
    tech="TLA+ process models + TLC; schedule replay through scheduler-gate hooks; trace validation of recorded reservations; race-detector-monitored stress"),
  "C10": dict(engine="RevAuth.tla", design="5/C10, 13",
    text="TLC explores every update message an adversary can assemble from a genuine one by up to 2 mutations plus JSON/CBOR transport in RevAuth.tla and checks that the transcribed acceptance predicates imply authenticity; every single-mutation message (thorough: plus a seeded sample of double mutations) is materialised byte for byte and fed to Update.Verify, Witness.Update, EventList.Verify, Update.Prepend and Hash.Equal in memory and after real JSON/CBOR round trips.",
-   note="Hash injective and signatures unforgeable in the model; chains of 3 events, 2 chains under one key; toy moduli; the unserialised SignedAccumulator.Accumulator memo is clear on received messages.",
+   note="Hash injective and signatures unforgeable in the model; chains of 3 (thorough 4) events, 2 chains under one key; toy moduli; the unserialised SignedAccumulator.Accumulator memo is clear on received messages.",
    tech="TLA+ symbolic adversary model + TLC exhaustive model checking; generated fault cases replayed on the real code"),
 }
 def main():
